@@ -53,7 +53,7 @@ ASSUMPTIONS = [
     "the evaluator output is a table indexed by the (realization, perturbation) labels of the request (label correctness is C06)",
     "perturbations are injected through a sampler plug-in with magnitude 1 and no bounds, so perturbed = x + sample exactly",
     "the least-squares solver is a black box that is run on bit-identical systems in the full and in the reduced runs",
-    "with a realization filter every function of the case is mapped to it; the reduced gradient run uses the reported weight row restricted to the survivors as configured weights (DESIGN C03 Reading)",
+    "with a realization filter either every function of the case is mapped to it (the reduced gradient run then uses the reported weight row restricted to the survivors as configured weights, DESIGN C03 Reading) or the maps are mixed (-1 next to 0: unfiltered functions keep the configured weights); for mixed maps the gradient reference is the per-realization run of every realization combined by the model with the row in force of each function, the function reference is the physically reduced run with the same maps",
     "merged estimation is judged differentially only (full vs. physically reduced ensemble, full vs. twin), which is independent of known finding C02:merged-gradient-scaled (both runs weight the rows alike); in the 0/0 region (no realization that succeeds for the gradient carries weight in force, outside the quantifier) gradient values are not compared, but flags, gates, exit codes and the absence of an escaping exception are (the empty stacked system of the merged estimate raised ValueError before fix 294d53c, F14f)",
     "when all survivors have configured weight zero but a cvar filter gives them weight in force, the physically reduced function run is configured with uniform weights (an all-zero weight vector is rejected by the configuration; CVaR weights do not depend on the configured weights)",
 ]
@@ -147,6 +147,8 @@ def _exhaustive(tier):
                             "samples": [[pool[(p + 2 * r + idx) % len(pool)] for p in range(P)] for r in range(R)],
                             "table": table, "allow_nan": bool((idx // 5) % 2), "split": bool((idx // 7) % 2),
                             "nan_col": col, "merge": False,
+                            # every third case with a filter: mixed maps (an unfiltered function next to a filtered one)
+                            "fmap": _mixed_map(idx, no, nc) if filt != "none" and idx % 3 == 1 else None,
                         }
 
 
@@ -223,6 +225,7 @@ def gen_sampled(rng):
         "x": [_dy(rng, -1, 1, 4) for _ in range(V)],
         "samples": samples, "table": table,
         "allow_nan": rng.random() < 0.5, "split": rng.random() < 0.4, "nan_col": "random", "merge": False,
+        "fmap": _mixed_map(rng.randrange(64), no, nc) if filt != "none" and rng.random() < 0.5 else None,
     }
 
 
@@ -237,6 +240,7 @@ def gen_merged(rng):
     case["oem"] = F._emap(rng, no, len(case["ests"]))
     case["cem"] = F._emap(rng, nc, len(case["ests"])) if nc else None
     case["merge"] = True
+    case["fmap"] = None
     case["stream"] = "merged"
     if R > 1 and rng.random() < 0.7:
         ncols = no + nc
@@ -276,6 +280,10 @@ def gen_zero_weight_survivors(rng):
     pos = rng.sample(range(R), rng.randint(1, max(1, R // 2)))
     case["w"] = [rng.randint(1, 16) / 16 if r in pos else 0.0 for r in range(R)]
     case["filter"] = _filter(rng.choice(["cvar", "cvar", "sort", "none"]), R, rng.randrange(64))
+    if case["filter"] is None or rng.random() < 0.6:
+        case["fmap"] = None
+    elif case["fmap"] is None:
+        case["fmap"] = _mixed_map(rng.randrange(64), no, case["nc"])
     table = [{"u": [list(e["u"][0]), list(e["u"][1])], "p": e["p"]} for e in case["table"]]
     for r in pos:
         table[r]["u"][0][rng.randrange(no)] = math.nan
@@ -360,6 +368,34 @@ def _plugin_manager():
     return pm
 
 
+def _maps(case):
+    """(objectives.realization_filters, nonlinear_constraints.realization_filters) of a case with a filter: every function
+    mapped to filter 0 unless the case carries mixed maps ('fmap': entries -1 = no filter, next to 0)"""
+    fm = case.get("fmap")
+    ofm = [0] * case["no"] if not fm else list(fm[0])
+    cfm = ([0] * case["nc"] if not fm else list(fm[1])) if case["nc"] else None
+    return ofm, cfm
+
+
+def _mixed(case):
+    return case["filter"] is not None and bool(case.get("fmap"))
+
+
+def _mixed_map(idx, no, nc):
+    """a map with at least one unfiltered (-1) function next to a filtered one, rotating with idx"""
+    n = no + nc
+    if n < 2:
+        return None
+    flat = [0 if (j + idx) % 2 == 0 else -1 for j in range(n)]
+    if idx % 3 == 0 and n > 2:
+        flat[(idx // 3) % n] = -1 if flat[(idx // 3) % n] == 0 else 0
+    if 0 not in flat:
+        flat[0] = 0
+    if -1 not in flat:
+        flat[-1] = -1
+    return [flat[:no], flat[no:]]
+
+
 def _config(case, *, w, samples, rmin, pmin, filt, x=None):
     P = len(samples[0])
     cfg = {
@@ -380,13 +416,13 @@ def _config(case, *, w, samples, rmin, pmin, filt, x=None):
         cfg["objectives"]["function_estimators"] = case["oem"]
     if filt is not None:
         cfg["realization_filters"] = [filt]
-        cfg["objectives"]["realization_filters"] = [0] * case["no"]
+        cfg["objectives"]["realization_filters"] = _maps(case)[0]
     if case["nc"]:
         nl = {"lower_bounds": case["lb"], "upper_bounds": case["ub"]}
         if case["cem"] is not None:
             nl["function_estimators"] = case["cem"]
         if filt is not None:
-            nl["realization_filters"] = [0] * case["nc"]
+            nl["realization_filters"] = _maps(case)[1]
         cfg["nonlinear_constraints"] = nl
     return cfg
 
@@ -557,7 +593,7 @@ def run_impl(case):
     keep = [r for r in range(R) if not failed_fn[r]]
     obs["red_f"] = None
     wkeep = [case["w"][r] for r in keep]
-    if keep and sum(wkeep) == 0 and case["filter"] is not None and case["filter"]["method"].startswith("cvar"):
+    if keep and sum(wkeep) == 0 and case["filter"] is not None and case["filter"]["method"].startswith("cvar") and not _mixed(case):
         # The weights in force are the CVaR filter's, which do not depend on the configured realization weights
         # (every function of the case is mapped to the filter).  A configuration cannot hold the all-zero weight
         # vector of the survivors, so the reduced ensemble is configured with uniform weights instead.
@@ -591,12 +627,20 @@ def run_impl(case):
     obs["red_g"] = None
     obs["per_real"] = [None] * R
     in_force = case["w"]
-    if case["filter"] is not None:
+    mixed = _mixed(case)
+    if mixed:
+        # mixed maps: the weight rows in force differ per function, so there is no single reduced ensemble; the reference
+        # is the per-realization run of every realization that carries weight in some row (combined by the model in Coq)
+        in_force = None
+        if obs["outcome"] == "results":
+            rows = [obs["cfg"]["w"]] + (obs["f"]["ow"] or []) + (obs["f"]["cw"] or [])
+            in_force = [sum(abs(row[r]) for row in rows) for r in range(R)]
+    elif case["filter"] is not None:
         in_force = full_ow[0] if full_ow is not None else None
     have_g = obs["outcome"] == "results" and obs["g"]["grads"] is not None
     if have_g and gkeep and in_force is not None and sum(in_force[r] for r in gkeep) > 0:
         counts = {len(okp[r]) for r in gkeep}
-        if len(counts) == 1:
+        if len(counts) == 1 and not mixed:
             try:
                 cfg = _config(case, w=[in_force[r] for r in gkeep],
                               samples=[[case["samples"][r][p] for p in okp[r]] for r in gkeep],
@@ -679,8 +723,8 @@ def _cfg_case(case):
     """case in the shape C01's printers expect"""
     filt = case["filter"]
     return {"nc": case["nc"], "ests": case["ests"], "oem": case["oem"], "cem": case["cem"],
-            "ofm": None if filt is None else [0] * case["no"],
-            "cfm": None if filt is None or not case["nc"] else [0] * case["nc"]}
+            "ofm": None if filt is None else _maps(case)[0],
+            "cfm": None if filt is None or not case["nc"] else _maps(case)[1]}
 
 
 def magnitude(case, obs):
@@ -882,7 +926,7 @@ def features(case, obs):
             "functions_reported": obs["outcome"] == "results" and obs["f"]["functions"] is not None,
             "gradients_reported": obs["outcome"] == "results" and obs["g"]["grads"] is not None,
             "gradient_reference": how, "opt_exit": obs["opt_exit"], "nan_col": case["nan_col"],
-            "merge": bool(case.get("merge")), "request": "function-then-gradient" if case.get("split") else "joint",
+            "merge": bool(case.get("merge")), "filter_maps": "mixed" if _mixed(case) else "all-or-none", "request": "function-then-gradient" if case.get("split") else "joint",
             "twin_run": obs.get("twin") is not None}
 
 
